@@ -209,8 +209,11 @@ def check_case(case):
         import traceback
         tb = "".join(traceback.format_exception(type(exc), exc, exc.__traceback__))
         where = "hmm_get_model" if "hmm_get_model" in tb else "other"
-        out.append({"clause": f"crash:ZeroDivisionError@{where}", "nsurv": len(alive),
-                    "detail": f"{len(alive)} surviving bins; {tb[-600:]}"})
+        # the HMM's emission spread is estimated from the autosomal survivors (all survivors if none is autosomal)
+        auto = [k for k in alive if k[0] not in ("chrX", "chrY")]
+        nfit = len(auto) if auto else len(alive)
+        out.append({"clause": f"crash:ZeroDivisionError@{where}", "nsurv": nfit,
+                    "detail": f"{len(alive)} surviving bins, {nfit} used to fit the emission spread; {tb[-600:]}"})
         return out
     if not cnarr.data[cols].equals(df):
         bad("input-modified", "do_segmentation changed its input table")
